@@ -6,7 +6,7 @@ from __future__ import annotations
 
 import itertools
 
-from .absint import new_interp, Interp, HList, HDict, HInst, NONE, const, is_const, fmt, mk_not
+from .absint import new_interp, Interp, HList, HDict, HInst, NONE, const, is_const, fmt, mk_not, mk_cmp
 from .common import AnalysisError
 from .facts import facts
 from . import nf
@@ -30,12 +30,18 @@ def _stub(name, result=None, typed=None):
 
 
 def truthy_forms(x):
-    return [x, ("cmp", "Gt", ("call", "len", (x,), ()), const(0)), ("cmp", "GtE", ("call", "len", (x,), ()), const(1)),
+    return [x, mk_cmp("Gt", ("call", "len", (x,), ()), const(0)), mk_cmp("GtE", ("call", "len", (x,), ()), const(1)),
             mk_not(("cmp", "Eq", ("call", "len", (x,), ()), const(0))), ("call", "bool", (x,), ()), ("call", "len", (x,), ())]
 
 
 def is_truthy_of(c, x) -> bool:
     return c in truthy_forms(x)
+
+
+def nonempty_guard(c, pol, x) -> bool:
+    """Guard (c, pol) holds exactly when collection x is non-empty (any spelling)."""
+    et = nf.emptiness_test(c, pol)
+    return et is not None and et[0] == x and et[1] is False
 
 
 def eval_bool(t, assign):
@@ -147,8 +153,15 @@ def analyse_lookahead(name: str) -> dict:
     loop, lctx = loops[0]
     lid = loop[1]
     linfo = I.loops[lid]
-    if linfo.get("kind") != "while" or not is_const(linfo.get("test"), True):
-        info["problems"].append(f"the read-ahead loop is not an unconditional loop left by break: while {fmt(linfo.get('test'), I)}")
+    ltest = linfo.get("test")
+    flag_loop = None        # (variable, polarity that keeps the loop running) for ``while flag`` / ``while not flag``
+    if linfo.get("kind") == "while" and ltest is not None and not is_const(ltest, True):
+        t_, pol_ = nf.norm_guard(ltest, True)
+        if t_[0] == "phi" and t_[1] == lid and is_const(linfo.get("carried_init", {}).get(t_[2])) \
+                and bool(linfo["carried_init"][t_[2]][1]) == pol_:
+            flag_loop = (t_[2], pol_)
+    if linfo.get("kind") != "while" or not (is_const(ltest, True) or flag_loop):
+        info["problems"].append(f"the read-ahead loop is neither left by break nor controlled by a local flag: while {fmt(ltest, I)}")
     body = loop[2]
     reads = [(n, c) for n, c in nf.iter_nodes(body) if n[0] == "ev" and n[1] == "read_token"]
     if len(reads) != 1 or nf.guards_in_ctx(reads[0][1]):
@@ -199,16 +212,25 @@ def analyse_lookahead(name: str) -> dict:
     benv = linfo.get("break_env", {})
     init = linfo.get("carried_init", {}).get(res_var) if res_var else None
     outcomes = {}
+    carried = linfo.get("carried", {})
     for bits in itertools.product([False, True], repeat=len(atoms)):
         assign = dict(zip(atoms, bits))
         events, ex = simulate(body, assign)
         flag = None
-        if ex == "break" and res_var is not None:
-            v = eval_term(benv.get(res_var, ("phi", lid, res_var)), assign)
+        leaves = ex == "break"
+        env_at_exit = benv
+        if not leaves and ex in (None, "continue") and flag_loop is not None:
+            # a flag-controlled loop is left when the flag, as updated by this iteration, stops the loop
+            fv = eval_term(carried.get(flag_loop[0], ("phi", lid, flag_loop[0])), assign)
+            if is_const(fv) and bool(fv[1]) != flag_loop[1]:
+                leaves = True
+                env_at_exit = carried
+        if leaves and res_var is not None:
+            v = eval_term(env_at_exit.get(res_var, ("phi", lid, res_var)), assign)
             if v == ("phi", lid, res_var):
                 v = init
             flag = v[1] if is_const(v) else fmt(v, I)
-        outcomes[bits] = (ex if ex else "continue", flag)
+        outcomes[bits] = ("break" if leaves else (ex if ex else "continue"), flag)
     kinds = [a[1] for a in atoms]
     def only(k):
         return tuple(x == k for x in kinds)
@@ -338,9 +360,15 @@ def analyse_read_token() -> dict:
     ctxp = ("param", fi.params()[1])
     q = ("attr", ctxp, "token_queue")
     sc = ("attr", ctxp, "token_scanner")
-    ok = rv[0] == "cond" and is_truthy_of(rv[1], q) and rv[2] == ("call", ".popleft", (q,), ()) and rv[3] == ("scanned", sc)
+    ok = False
+    if rv[0] == "cond":
+        if nonempty_guard(rv[1], True, q):
+            ok = rv[2] == ("call", ".popleft", (q,), ()) and rv[3] == ("scanned", sc)
+        elif nonempty_guard(rv[1], False, q):
+            ok = rv[3] == ("call", ".popleft", (q,), ()) and rv[2] == ("scanned", sc)
     muts = [(n, c) for n, c in nf.iter_nodes(tree) if n[0] == "mutate"]
-    ok = ok and len(muts) == 1 and muts[0][0][1] == q and muts[0][0][2] == "popleft" and [g for g in nf.guards_in_ctx(muts[0][1])] in ([(rv[1], True)], [nf.norm_guard(rv[1], True)])
+    mg = nf.guards_in_ctx(muts[0][1]) if len(muts) == 1 else []
+    ok = ok and len(muts) == 1 and muts[0][0][1] == q and muts[0][0][2] == "popleft" and len(mg) == 1 and nonempty_guard(mg[0][0], mg[0][1], q)
     ok = ok and reads == [sc]
     return {"fi": fi, "ok": ok, "found": fmt(rv, I), "I": I}
 
@@ -364,7 +392,17 @@ def analyse_wrapper() -> dict:
     calls = [n for n in ev if n[0] == "dyncall"]
     rets = [n for n in ev if n[0] == "return"]
     in_try = _inside_try(tree, calls[0]) if calls else None
-    if not (len(calls) == 1 and calls[0][1] == act and calls[0][2] == (arg,) and ex == "return" and rets and rets[-1][1] == ("call", "<dyn>", (act, arg), ()) and in_try is False):
+    transparent = in_try is False
+    if in_try:
+        # protected, but every handler hands the exception straight back in this mode (bare ``raise`` before any effect)
+        trys_ = [n for n, c in nf.iter_nodes(tree) if n[0] == "try" and any(x is calls[0] for x, _ in nf.iter_nodes(n[1]))]
+        transparent = bool(trys_)
+        for t_ in trys_:
+            for h in t_[2]:
+                hev, hex_ = simulate(h[2], {stop: True})
+                if not (hex_ == "raise" and len(hev) == 1 and hev[0][0] == "raise" and hev[0][1] == ("reraise",)):
+                    transparent = False
+    if not (len(calls) == 1 and calls[0][1] == act and calls[0][2] == (arg,) and ex == "return" and rets and rets[-1][1] == ("call", "<dyn>", (act, arg), ()) and transparent):
         out["problems"].append(("stop", "stop mode: the action runs unprotected and its result is returned (the first error propagates as raised)",
                                 {"calls": len(calls), "inside_try": in_try, "exit": ex}))
     # collect mode
@@ -377,7 +415,7 @@ def analyse_wrapper() -> dict:
     body_calls = [n for n, _ in nf.iter_nodes(t[1]) if n[0] == "dyncall"]
     if not (len(body_calls) == 1 and body_calls[0][1] == act and body_calls[0][2] == (arg,)):
         out["problems"].append(("collect", "collect mode: exactly the action call is protected", len(body_calls)))
-    handlers = {h[0]: h for h in t[2]}
+    handlers = {h[0]: (h[0], h[1], nf.specialise(h[2], {stop: False})) + tuple(h[3:]) for h in t[2]}
     if sorted(handlers) != ["CompositeParserException", "ParserException"]:
         out["problems"].append(("handlers", "collect mode: parser exceptions (single and composite) are caught, nothing broader", sorted(map(str, handlers))))
     ev2, ex2 = res[False]
@@ -400,12 +438,12 @@ def analyse_wrapper() -> dict:
                         and adds[0][0][2][1] == ctxp
             if not ok:
                 out["problems"].append(("composite", "a composite exception contributes each of its errors, in order", len(adds)))
-        hev, hex_ = simulate(h[2], {})
+        hev, hex_ = simulate(h[2], {stop: False})
         hr = [n for n in hev if n[0] == "return"]
         if hex_ == "return":
             okr = hr and hr[-1][1] == dflt
         else:
-            aev, aex = simulate(rest_after_try, {})
+            aev, aex = simulate(rest_after_try, {stop: False})
             ar = [n for n in aev if n[0] == "return"]
             okr = hex_ is None and aex == "return" and ar and ar[-1][1] == dflt
         if not okr:
